@@ -1100,6 +1100,7 @@ func main() {
 	}
 	w("]\n")
 	w("def enterFuncDrops : Bool := %v\n", enterFuncShape(cmpF))
+	w("def predeclaresFuncs : Bool := %v\n", predeclareShape(cmpF))
 	w("def enterFuncCases : List String := [")
 	for i, e := range enter {
 		if i > 0 {
